@@ -130,19 +130,34 @@ NoKnown(k) == {}
 (***************************************************************************)
 (* The trace specification                                                 *)
 (***************************************************************************)
-TraceInit == st = EmptyState /\ l = 1 /\ TLCSet(1, << >>)
+\* events may name the machine they ran on (C19: several machines, one parser object)
+VmOf(ev) == IF "vm" \in DOMAIN ev THEN ev.vm ELSE 0
+Vms == 0 .. 3
+
+TraceInit == st = [v \in Vms |-> EmptyState] /\ l = 1 /\ TLCSet(1, << >>)
 
 TraceNext ==
   /\ l <= Len(Rec)
   /\ l' = l + 1
   /\ LET ev == Rec[l] IN
      CASE ev.ev = "reset" ->
-            st' = [regs |-> ev.regs, flags |-> ev.flags, mem |-> MkMem(ev.mem),
-                   bg |-> ev.bg, stack |-> ev.stack]
+            st' = [st EXCEPT ![VmOf(ev)] = [regs |-> ev.regs, flags |-> ev.flags, mem |-> MkMem(ev.mem),
+                                             bg |-> ev.bg, stack |-> ev.stack]]
        [] ev.ev = "step" ->
-            /\ CheckStep(st, ev)
-            /\ st' = [st EXCEPT !.regs = ev.regs, !.flags = ev.flags,
-                                !.mem = MkMem(ev.memw) @@ st.mem, !.stack = ev.stack]
+            /\ CheckStep(st[VmOf(ev)], ev)
+            /\ st' = [st EXCEPT ![VmOf(ev)] = [regs |-> ev.regs, flags |-> ev.flags,
+                                                mem |-> MkMem(ev.memw) @@ st[VmOf(ev)].mem,
+                                                bg |-> st[VmOf(ev)].bg, stack |-> ev.stack]]
+       \* a freshly created machine (C19)
+       [] ev.ev = "newvm" ->
+            /\ (IF ev.regs = FreshRegs /\ ev.flags = FreshFlags /\ ev.nonzero = 0 THEN TRUE
+                ELSE Verdict([l |-> l, ev |-> "newvm", kind |-> "MISMATCH", dev |-> "", why |-> <<ev.regs, ev.flags, ev.nonzero>>]))
+            /\ UNCHANGED st
+       \* the same program and input run several times in separate processes (C19)
+       [] ev.ev = "repeat" ->
+            /\ (IF ev.identical THEN TRUE
+                ELSE Verdict([l |-> l, ev |-> "repeat", kind |-> "MISMATCH", dev |-> "", why |-> <<ev.runs, ev.what>>]))
+            /\ UNCHANGED st
        [] ev.ev = "alu8" ->
             /\ BatchVerdict("alu8", AluBad(ev), LAMBDA k : AluKnown(ev, k)) /\ UNCHANGED st
        [] ev.ev = "shift" ->
@@ -174,7 +189,7 @@ TraceNext ==
        \* an expansion error must be refused; otherwise the macro program and the hand-expanded program are
        \* accepted or refused together and, when accepted, emit the same instruction list
        [] ev.ev = "macro" ->
-            /\ (IF (ev.err # "" /\ ~ev.macro_ok) \/ (ev.err = "" /\ ev.macro_ok = ev.ref_ok /\ (ev.macro_ok => ev.same)) THEN TRUE
+            /\ (IF ~ev.aborted /\ ((ev.err # "" /\ ~ev.macro_ok) \/ (ev.err = "" /\ ev.macro_ok = ev.ref_ok /\ (ev.macro_ok => ev.same))) THEN TRUE
                 ELSE Verdict([l |-> l, ev |-> "macro", kind |-> "MISMATCH", dev |-> "",
                               why |-> <<ev.err, ev.macro_ok, ev.ref_ok, ev.same, ev.macro_code, ev.ref_code, ev.diag>>]))
             /\ UNCHANGED st
